@@ -35,6 +35,7 @@ def run_scenario(item):
         recs.append({'ev': 'reset', 'sc': item['id'], 'servers': servers, 'bantime_ds': BAN_S * 10})
         hpos = [len(w.hooks())]
         cl = Client(w.port, name='T', timeout=8.0)
+        holders = []
 
         def hook_delta():
             hs = w.hooks()
@@ -93,6 +94,27 @@ def run_scenario(item):
                 time.sleep(0.02)
                 d = hook_delta()
                 recs.append({'ev': 'admin_unban', 's': st['s'], 't': now_ds(), 'banned': d['banned'], 'unbanned': d['unbanned']})
+            elif op == 'hold':
+                # a second client keeps a transaction open on server st['s']
+                want = st['s']
+                try:
+                    hc = Client(w.port, name='HOLD', timeout=6.0)
+                    hc.query("SET SERVER ROLE TO '%s'" % ('primary' if want == 'p' else 'replica'), tagged=False)
+                    for _ in range(8):
+                        r1 = hc.query('BEGIN')
+                        r2 = hc.query('SELECT 1') if r1.end == 'Z' and not r1.errors else r1
+                        e2 = r2.echoes()
+                        if r2.end == 'Z' and e2 and e2[0]['be'] == want:
+                            holders.append(hc)
+                            break
+                        if r2.end != 'Z':
+                            break
+                        hc.query('ROLLBACK')
+                    else:
+                        hc.close()
+                except OSError:
+                    pass
+                hook_delta()
             elif op == 'tx_abandon':
                 # the client resets its connection right after sending the statement
                 req = st['a']
@@ -161,6 +183,8 @@ def run_scenario(item):
                              'tried_failed': d['tried_failed'], 'error': err[:80],
                              'banned_seen': d['banned_seen'], 'unbanned_seen': d['unbanned_seen']})
         out['alive'] = w.alive()
+        for hc in holders:
+            hc.close()
         cl.close()
     return out
 
